@@ -43,8 +43,38 @@ noncomputable def cexSupp : Unit → V → Except Err ((V × V) × Unit) :=
 theorem cex_dispatch_generic : dispatchBranch cexC0 cexC1 = 1 := by
   simp [dispatchBranch, cexC0, cexC1, Kind.found]
 
-theorem cex_inflation : inflationOf cexC0 cexC1 = 1 := by
-  simp [inflationOf, cexC0, cexC1, Kind.inflated]
+theorem cex_inflation_before_fix : inflationOf_asIs_before_fix cexC0 cexC1 = 1 := by
+  simp [inflationOf_asIs_before_fix, cexC0, cexC1, Kind.inflated]
+
+/-- after the repair the same pair gets no inflation -/
+theorem cex_inflation : inflationOf cexC0 cexC1 = 0 := by
+  simp [inflationOf, cexC0, cexC1, Kind.found]
+
+/-! ### the dispatch after the repair: inflation only together with the core supports -/
+
+/-- generic fall-back ⇒ no inflation -/
+theorem inflationOf_generic (c0 c1 : Coll ℝ) (h : dispatchBranch c0 c1 = 1) : inflationOf c0 c1 = 0 := by
+  unfold dispatchBranch at h
+  unfold inflationOf
+  split
+  · rename_i hf; rw [if_pos hf] at h; cases h
+  · rfl
+
+/-- for two specialised colliders (all the primitives variant accepts) nothing changed -/
+theorem inflationOf_eq_before_fix_of_found (c0 c1 : Coll ℝ) (h : dispatchBranch c0 c1 = 0) :
+    inflationOf c0 c1 = inflationOf_asIs_before_fix c0 c1 := by
+  unfold dispatchBranch at h
+  unfold inflationOf
+  split
+  · rfl
+  · rename_i hf; rw [if_neg hf] at h; cases h
+
+/-- with core supports the inflation is the sum of the radii of the inflated colliders -/
+theorem inflationOf_core (c0 c1 : Coll ℝ) (h : dispatchBranch c0 c1 = 0) :
+    inflationOf c0 c1 = (if c0.kind.inflated then c0.radius else 0) + (if c1.kind.inflated then c1.radius else 0) := by
+  rw [inflationOf_eq_before_fix_of_found c0 c1 h]
+  unfold inflationOf_asIs_before_fix
+  split <;> split <;> simp
 
 theorem supp0 : cexSupp () ⟨-1, 0, 0⟩ = .ok ((⟨-1, 0, 0⟩, ⟨6, 0, 0⟩), ()) := by
   norm_num [cexSupp, cexGen0, cexGen1, supportFunction, cexC0, cexC1, Kind.found, sphereWorldSupport,
@@ -104,6 +134,38 @@ theorem cex_run : gjk 128 1.79769e+308 1e-06 (1 : ℝ) false false cexSupp () = 
   simp only [h1, if_true, pass1, bind, Except.bind]
   rw [loop]
   simp only [h2, if_true, pass2, bind, Except.bind]
+
+/-! the same scene after the repair: inflation 0, result 4 -/
+
+noncomputable def cexCfg0 : Cfg ℝ := ⟨128, 1.79769e+308 + 0, 1e-06, 0, false⟩
+def cexRes0 : Res ℝ := ⟨false, 4, ⟨⟨-4, 0, 0⟩, ⟨-4, 0, 0⟩, z3, z3⟩, 1, 2, 3⟩
+
+theorem pass0' : pass cexCfg0 cexSupp (initSt false) () = .ok (.next cexSt1 ()) := by
+  norm_num [pass, decideStep, afterProject, projRayLen, Except.map, initSt, cexCfg0, cexSt1, nextRayDir, supp0,
+    omegaOf, cdiv, normx, V3.dot_def, bind, Except.bind, Simplex.setRow, project, fwGapSmall, cvCheckPassed,
+    isZero, z3]
+
+theorem pass1' : pass cexCfg0 cexSupp cexSt1 () = .ok (.next cexSt2 ()) := by
+  norm_num [pass, decideStep, afterProject, projRayLen, Except.map, cexCfg0, cexSt1, cexSt2, nextRayDir, supp1,
+    omegaOf, cdiv, normx, V3.dot_def, bind, Except.bind, Simplex.setRow, project, projectLineOrigin,
+    originToPoint, fwGapSmall, cvCheckPassed, isZero, z3]
+
+theorem pass2' : pass cexCfg0 cexSupp cexSt2 () = .ok (.done cexRes0 ()) := by
+  norm_num [pass, decideStep, afterProject, projRayLen, Except.map, cexCfg0, cexSt2, cexRes0, nextRayDir, supp2,
+    omegaOf, cdiv, normx, V3.dot_def, bind, Except.bind, Simplex.setRow, fwGapSmall, cvCheckPassed, isZero, z3]
+
+theorem cex_run_fixed : gjk 128 1.79769e+308 1e-06 (0 : ℝ) false false cexSupp () = .ok (cexRes0, ()) := by
+  have hcfg : (⟨128, 1.79769e+308 + 0, 1e-06, 0, false⟩ : Cfg ℝ) = cexCfg0 := rfl
+  have h0 : (initSt false : St ℝ).i < cexCfg0.maxIter := by simp [initSt, cexCfg0]
+  have h1 : cexSt1.i < cexCfg0.maxIter := by simp [cexSt1, cexCfg0]
+  have h2 : cexSt2.i < cexCfg0.maxIter := by simp [cexSt2, cexCfg0]
+  unfold gjk
+  rw [hcfg, show (128 + 2 : Nat) = 127 + 1 + 1 + 1 from rfl, loop]
+  simp only [h0, if_true, pass0', bind, Except.bind]
+  rw [loop]
+  simp only [h1, if_true, pass1', bind, Except.bind]
+  rw [loop]
+  simp only [h2, if_true, pass2', bind, Except.bind]
 
 /-! the sets of the scene and their true distance -/
 
